@@ -53,7 +53,7 @@ def run_property(pm, tier, seed, only_cfg=None, only_case=None, jobs=None):
     agg = {'programs': 0, 'obligations': 0, 'discharged': 0, 'unknown': 0, 'paths': 0, 'steps': 0, 'validated': 0, 'val_mismatch': 0,
            'sat_confirmed': 0, 'sat_unconfirmed': 0, 'compile_fail': 0, 'solver_s': 0.0, 'queries': 0, 'mem_checked': 0, 'cases_ok': 0,
            'structural': 0, 'depth_max': 0, 'gxx_diff': 0}
-    mem_unconfirmed = []
+    mem_unconfirmed = []; slow = []
     funcs = set(); intr = set(); stubs = set(); libm = set(); samples = []; cfgkeys = []; compile_matrix = {}; per_cfg = {}
     opts_base = {'seed': seed, 'timeout': getattr(pm, 'TIMEOUT', {}).get(tier, 10), 'nval': 2 if tier == 'quick' else 3}
     opts_base.update(getattr(pm, 'OPTS', {}))
@@ -92,7 +92,7 @@ def run_property(pm, tier, seed, only_cfg=None, only_case=None, jobs=None):
             c = byid[r['id']]; agg['programs'] += 1
             if r['status'] == 'error':
                 broken.append(f'{c.id}@{cfg.key()}: internal error {r["error"][-400:]}'); continue
-            agg['steps'] += r.get('steps', 0)
+            agg['steps'] += r.get('steps', 0); slow.append((round(r.get('wall', 0), 1), c.id, cfg.key()))
             if r['status'] == 'inconclusive':
                 inconcl.append({'case': c.id, 'cfg': cfg.key(), 'why': r.get('error', '')}); continue
             agg['obligations'] += r['obligations']; agg['discharged'] += r['discharged']; agg['unknown'] += len(r['unknown'])
@@ -170,6 +170,7 @@ def run_property(pm, tier, seed, only_cfg=None, only_case=None, jobs=None):
         'compile_failures': agg['compile_fail'], 'compile_matrix': compile_matrix,
         'counterexamples_replayed_confirmed': agg['sat_confirmed'], 'counterexamples_not_reproduced': agg['sat_unconfirmed'],
         'encoder_native_mismatches': agg['val_mismatch'], 'gxx_build_differs': agg['gxx_diff'],
+        'slowest_cases': sorted(slow, reverse=True)[:12],
         'memory_findings_unconfirmed': mem_unconfirmed[:50],
         'known_findings_hit': {k: v[1] for k, v in known_hit.items()},
         'bounds': pm.bounds(tier) if hasattr(pm, 'bounds') else '', 'explanation': getattr(pm, 'EXPLANATION', ''),
@@ -196,7 +197,12 @@ def main(argv=None):
     a = ap.parse_args(argv)
     seed = int(os.environ.get('VERIF_SEED', '0'))
     pm = importlib.import_module('props.' + a.prop.lower())
+    from . import lemmas
+    lm = lemmas.prove_all()
+    if not all(v[0] == 'unsat' for v in lm.values()):
+        print('BROKEN: encoder normalisation lemma not proved', lm); sys.exit(2)
     code, ev, lines = run_property(pm, a.tier, seed, a.cfg, a.case)
+    ev['coverage']['encoder_lemmas'] = {k: v[0] for k, v in lm.items()}
     for l in lines: print(l)
     c = ev['coverage']
     print(f'{a.prop} {a.tier}: programs={c["programs"]} obligations={c["obligations"]} discharged={c["discharged"]} unknown={c["solver_unknown"]} '
